@@ -275,3 +275,40 @@ char *bad_scanopt(struct _scanopt_t *s, char *optarg, int needs_arg)	/* control:
 	return optarg;
 }
 char *bad_scanopt_entry(struct _scanopt_t *s) { return s->argv[s->index]; }	/* control: no entry guard */
+
+/* ---------------------------------------------------------------- R8 (source of the reallocation), R11, R12 */
+int cur_max3, *arr_a, *arr_b;
+void setup_family3(void) { cur_max3 = 10; arr_a = allocate_array(cur_max3, sizeof(int)); arr_b = allocate_array(cur_max3, sizeof(int)); }
+void bad_grow_source(void)			/* control: wrong array reallocated, fresh block for the other */
+{
+	cur_max3 += 10;
+	arr_a = reallocate_array(arr_b, cur_max3, sizeof(int));
+	arr_b = allocate_array(cur_max3, sizeof(int));
+}
+int n_kept;
+static void grow_family(void)
+{
+	cur_max += 100;
+	kept = reallocate_array(kept, cur_max, sizeof(int)); forgotten = reallocate_array(forgotten, cur_max, sizeof(int));
+	if (optional) optional = reallocate_array(optional, cur_max, sizeof(int));
+}
+void good_guard(void) { if (++n_kept >= cur_max) grow_family(); kept[n_kept] = 0; }
+void good_guard_spelling(void) { if (n_kept >= cur_max - 2) grow_family(); ++n_kept; kept[n_kept] = 0; }
+void bad_guard(void) { if (++n_kept > cur_max) grow_family(); kept[n_kept] = 0; }	/* control: element cur_max is written before growing */
+
+int num_input_files; char **input_files;
+void set_input_file(char *);
+void flexinit_like(int argc, char **argv, int optind)
+{
+	num_input_files = argc - optind;
+	input_files = argv + optind;
+	set_input_file(num_input_files > 0 ? input_files[0] : 0);
+}
+int yywrap(void)				/* control: the last file is never opened */
+{
+	if (--num_input_files > 1) {
+		set_input_file(*++input_files);
+		return 0;
+	}
+	return 1;
+}
